@@ -193,6 +193,7 @@ type runCfg struct {
 	MaxNest    int    `json:"maxnest"`
 	MaxTail    int    `json:"maxtail"`
 	MaxMacro   int    `json:"maxmacro"`
+	MaxAlloc   int    `json:"maxalloc"`
 	CancelAt   int64  `json:"cancel_at"` // context reports cancellation from the k-th Err() poll on (0 = never)
 	NoStdlib   bool   `json:"nostdlib"`
 	NoCount    bool   `json:"nocount"`     // do not install a context: steps are then not counted unless maxsteps > 0
@@ -312,6 +313,9 @@ func newSession(cfg runCfg) (*session, error) {
 	}
 	if cfg.MaxMacro > 0 {
 		opts = append(opts, lisp.WithMaxMacroExpansionDepth(cfg.MaxMacro))
+	}
+	if cfg.MaxAlloc > 0 {
+		opts = append(opts, lisp.WithMaxAlloc(cfg.MaxAlloc))
 	}
 	if rc := lisp.InitializeUserEnv(env, opts...); rc.Type == lisp.LError {
 		return nil, fmt.Errorf("init: %v", rc)
